@@ -10,6 +10,8 @@
 //!                becomes visible one edge late)
 //!   drop_mask  : the echo clears the highest X/Z mask word before writing
 //!   flip_bit   : the echo flips payload bit width-1
+//!   stale_mask : c35_mix's scalar write keeps the X/Z mask of its previous write
+//!                (emulates a write_u64 that does not clear the port's mask word)
 
 use veryl_component::{
     BuildCtx, Component, ComponentKind, InputPort, OutputPort, Result, SimCtx, Value, bail,
@@ -21,6 +23,7 @@ fn sabotage() -> u32 {
         Some("late") => 1,
         Some("drop_mask") => 2,
         Some("flip_bit") => 3,
+        Some("stale_mask") => 4,
         _ => 0,
     }
 }
@@ -317,6 +320,78 @@ impl Component for Probe {
 }
 
 // ---------------------------------------------------------------------------
+// Mix: per clock hook, `sel` chooses which read API samples `d` and which write
+// API drives `q` (the SAME ports over time):
+//   sel[3:2] read : 0/3 ctx.read (payload + mask) | 1 ctx.read_words | 2 ctx.read_u64 (<= 64 bits, else read_words)
+//   sel[1:0] write: 0 ctx.write(Value with the mask that was read) | 1 ctx.write_words
+//                   | 2 ctx.write_u64 (<= 64 bits, else write_words) | 3 ctx.write(fully known Value)
+// What it writes is therefore (payload of d, mask of d iff read==full && write==0).
+// ---------------------------------------------------------------------------
+pub struct Mix {
+    d: InputPort,
+    sel: InputPort,
+    q: OutputPort,
+    buf: Vec<u64>,
+    sab: u32,
+    last_mask: Vec<u64>,
+}
+
+impl Component for Mix {
+    const KIND: ComponentKind = ComponentKind::Clocked;
+    fn new(ctx: &mut BuildCtx) -> Result<Self> {
+        ctx.clock("clk")?;
+        let d = ctx.input("d")?;
+        let sel = ctx.input("sel")?;
+        let q = ctx.output("q")?;
+        if d.width() != q.width() {
+            bail!("c35_mix needs equally wide d and q");
+        }
+        Ok(Self {
+            buf: vec![0; d.words()],
+            sab: sabotage(),
+            last_mask: vec![0; d.words()],
+            d,
+            sel,
+            q,
+        })
+    }
+    fn on_clock(&mut self, ctx: &mut SimCtx) -> Result<()> {
+        let s = ctx.read_u64(self.sel);
+        let (wmode, rmode) = (s & 3, (s >> 2) & 3);
+        let w = self.d.width();
+        let n = self.d.words();
+        let (words, mask): (Vec<u64>, Vec<u64>) = match rmode {
+            2 if w <= 64 => (vec![ctx.read_u64(self.d)], vec![0]),
+            1 | 2 => {
+                ctx.read_words(self.d, &mut self.buf);
+                (self.buf.clone(), vec![0; n])
+            }
+            _ => {
+                let v = ctx.read(self.d);
+                let Value::Bits { words, mask_xz, .. } = &v else {
+                    bail!("expected bits");
+                };
+                (words.to_vec(), mask_xz.to_vec())
+            }
+        };
+        match wmode {
+            0 => {
+                self.last_mask = mask.clone();
+                ctx.write(self.q, bits(&words, &mask, w))
+            }
+            2 if w <= 64 && self.sab == 4 => {
+                let stale = self.last_mask.clone();
+                ctx.write(self.q, bits(&words, &stale, w))
+            }
+            2 if w <= 64 => ctx.write_u64(self.q, words[0]),
+            1 | 2 => ctx.write_words(self.q, &words),
+            _ => ctx.write(self.q, bits(&words, &[], w)),
+        }
+        Ok(())
+    }
+}
+
+// ---------------------------------------------------------------------------
 // Init: drives its parameter P onto `q` in on_init (visible from the first settle).
 // ---------------------------------------------------------------------------
 pub struct Init {
@@ -357,4 +432,5 @@ veryl_component_export!(
     "c35_rec" => Rec,
     "c35_probe" => Probe,
     "c35_init" => Init,
+    "c35_mix" => Mix,
 );
